@@ -72,6 +72,7 @@ fn graph() {
                     let opts = ReplayOpts {
                         encode_every,
                         decode,
+                        hash_repeats: 8,
                     };
                     let (findings, st) = replay_line(&lib, &world, &v, &opts);
                     lines += 1;
@@ -79,7 +80,7 @@ fn graph() {
                     encodes += st.encodes;
                     decoded += st.decoded;
                     for f in findings {
-                        rtx.send(json!({"i": i, "class": f.class, "what": f.what, "op": f.op, "hist": v["hist"]})).unwrap();
+                        rtx.send(json!({"i": i, "class": f.class, "what": f.what, "op": f.op, "hist": v["hist"], "kf": v["state"]["kf"]})).unwrap();
                     }
                 }
             }
@@ -112,6 +113,7 @@ fn graph() {
     let out = std::io::stdout();
     let mut out = out.lock();
     let (mut lines, mut ops, mut encodes, mut decoded, mut findings) = (0, 0, 0, 0, 0usize);
+    let mut per_class: std::collections::BTreeMap<String, usize> = Default::default();
     for r in rrx {
         if r["summary"] == true {
             lines += r["lines"].as_u64().unwrap();
@@ -120,7 +122,12 @@ fn graph() {
             decoded += r["decoded"].as_u64().unwrap();
         } else {
             findings += 1;
-            if findings <= max_findings {
+            // cap per finding class (and per known-finding flag set) so that a frequent class
+            // cannot crowd out a rare one
+            let key = format!("{}|{}", r["class"], r["kf"]);
+            let n = per_class.entry(key).or_insert(0usize);
+            *n += 1;
+            if *n <= max_findings {
                 writeln!(out, "{r}").unwrap();
             }
         }
@@ -136,7 +143,7 @@ fn graph() {
     writeln!(
         out,
         "{}",
-        json!({"summary": true, "read": n, "lines": lines, "ops": ops, "encodes": encodes, "decoded": decoded, "findings": findings})
+        json!({"summary": true, "read": n, "lines": lines, "ops": ops, "encodes": encodes, "decoded": decoded, "findings": findings, "per_class": per_class})
     )
     .unwrap();
 }
